@@ -271,4 +271,39 @@ def sweep(ctx, n):
         if changed:
             fails.append({"key": f"caller-array-mutated:{cls}:{changed[0]}", "desc": f"get{field}('{cls}', ...) modified the caller's array(s) {changed}",
                           "replay": {"class": cls, "field": field, "changed": changed, "n": k}})
+    # a user-defined source whose field function hands out an array it KEEPS (a memoised constant, a lookup table), with a
+    # non-unit orientation and a path: the library may read that array, never write to it, and repeated calls agree
+    for trial in range(max(3, n // 12)):
+        nps = np.random.default_rng(rng.randrange(2**31))
+        npts = rng.choice([1, 3, 4])
+        plen = rng.choice([1, 2, 3])
+        table = {}
+
+        def ff(field, observers, table=table):
+            key = (field, len(observers))
+            if key not in table:
+                table[key] = np.arange(3.0 * len(observers)).reshape(-1, 3) * (1.0 if field == "B" else 2.0) + 0.25
+            return table[key]
+
+        cs = magpy.misc.CustomSource(field_func=ff, position=nps.uniform(-1, 1, (plen, 3)), orientation=R.random(plen, rng=nps))
+        other = make(rng.choice(CLASSES), nps)
+        obs = far_points(nps, npts, lo=4, hi=8)
+        X = rng.choice(["B", "H"])
+        calls = [lambda: getattr(magpy, "get" + X)(cs, obs), lambda: getattr(cs, "get" + X)(obs), lambda: getattr(magpy, "get" + X)([other, cs], obs, sumup=True),
+                 lambda: getattr(magpy, "get" + X)(magpy.Collection(cs.copy(), other.copy()), obs)]
+        f_ = rng.choice(calls[:3])
+        r1 = np.array(f_())
+        kept = {k_: v_.copy() for k_, v_ in table.items()}
+        r2 = np.array(f_())
+        try:
+            getattr(magpy, "get" + X)(cs, obs, output="xml")
+        except Exception:  # noqa: BLE001
+            pass
+        r3 = np.array(f_())
+        done += 1
+        kinds["custom-memoised-array"] = kinds.get("custom-memoised-array", 0) + 1
+        changed_tbl = [k_ for k_ in kept if not np.array_equal(kept[k_], table[k_])]
+        if changed_tbl or not (np.array_equal(r1, r2) and np.array_equal(r1, r3)):
+            fails.append({"key": "mutation:custom-source:returned-array", "desc": f"get{X} wrote into the array a CustomSource's field function returned and keeps (changed tables: {changed_tbl}); "
+                          f"repeated identical calls equal: {bool(np.array_equal(r1, r2) and np.array_equal(r1, r3))}", "replay": {"field": X, "path_length": plen, "observers": npts}})
     return fails, {"c08_calls": done, "c08_dict_interface_calls": n_dict, "c08_fault_kinds": kinds}
